@@ -40,6 +40,30 @@ holds for every noise channel covariance                                signal o
                                                                         the exact RDM; variance level of i.i.d. noise
                                                                         checked statistically, 15 % band, N >= 4000)
 
+Dimension sweeps (function _sweeps; the same oracles on inputs that vary along further dimensions, plus two oracles)
+----------------------------------------------------------------------------------------------------------------------
+typed data         model RDM stored as int64 / int32 / uint8 / int16 / float32 (integer point sets, so the stored numbers are
+                   exact; result = result for the same numbers as float64), 0/1 design matrix stored as bool / int64 / uint8 /
+                   float32, signal and noise passed as python int / np.int64 / np.float64, noise covariance as int64 / float32
+                   (C18/exact-rdm-typed, C18/exact-precision-typed, C18/noise-sweep, C18/descriptors-sweep)
+extreme units      model RDM x {1e-10, 1e-6, 1e6, 1e12, 1e20}, signal strength in {1e-26, 1e-12, 1e6, 1e12, 0}, noise variances
+                   1e-26 .. 1e12, signal and noise jointly in units 1e-20 .. 1e12; labels in units 1e-20 / 1e-26 / 1e12
+                   (C18/exact-rdm-units, C18/exact-precision-units, C18/noise-sweep, C18/same-signal-sweep, C18/indicator-sweep).
+                   Model RDMs in units <= 1e-14 FAIL on the unchanged tree (absolute pivot threshold 1e-15 in make_signal):
+                   class 'model-rdm-tiny-units', registered behind `if False:  # pending triage`
+label types        condition vector as int64 / int32 / uint8 / int16 / str / float / floats differing by 2^-40 / floats of the
+                   order 1e-20; indicator of int, str, bool, float32 and nearly equal float labels (exhaustive small sequences)
+orders             designs 'descending' (blocks, highest first, unequal sizes) and 'interleaved' (first appearance descending,
+                   repeated in rotated order) next to shuffled / unbalanced
+sizes              n_cond 12 / 16 / 24 (40 thorough) with n_channel = n_cond, n_cond+1, 64; n_part 7; n_sim 5..6; make_design up
+                   to 300 conditions / partitions and with numpy integer arguments
+call sequences     orc_sequence (C18/call-sequence): inputs unchanged by the call (arrays, dtypes), the same call after the same
+                   seed gives identical data, a second model of the same class / name / shape gets ITS OWN RDM, datasets held from
+                   an earlier call keep values and descriptors, a call without re-seeding is exact again; make_design twice
+environment        orc_fresh (C18/fresh-interpreter): the oracles hold in new interpreters with other PYTHONHASHSEEDs (string
+                   labels) and the seeded simulated data equal those of this process
+Not applicable to C18: competitor sets (no optimality claim), files / dict order (nothing is read or written).
+
 Assumption used by orc_same_signal(noise>0) and orc_noise: two calls of make_dataset after np.random.seed(s) that differ
 ONLY in the numeric value of `signal` (resp. `noise` > 0) consume the global random stream identically.
 
@@ -244,7 +268,7 @@ def _model(case, rs, n_cond):
     from rsatoolbox.rdm import RDMs
     kind = case.get('kind', 'generic')
     mk = case.get('model', 'fixed')
-    name = 'gen-%s-%d' % (mk, case['seed'])
+    name = case.get('name') or 'gen-%s-%d' % (mk, case['seed'])
     if mk == 'fixed':
         v, D = _typed(case, _sqdist_matrix(_points(rs, n_cond, kind)))
         return ModelFixed(name, v), None, D, name, [v]
@@ -635,12 +659,12 @@ def _inputs_changed(snap, model, theta, arg, kw, raw):
 @oracle('C18/call-sequence')
 def orc_sequence(case):
     """call protocol: (1) inputs are unchanged after the call; (2) the same call after the same seed gives identical data;
-    (3) a call with ANOTHER model of the same shape (same n_cond, n_channel, design size) gives the RDM of THAT model (nothing
-    may be remembered per shape); (4) datasets returned earlier keep their values and descriptors while the library is called
+    (3) a call with ANOTHER model of the same class, NAME and shape (same n_cond, n_channel, design size) gives the RDM of THAT
+    model (nothing may be remembered per shape or per name); (4) datasets returned earlier keep their values and descriptors while the library is called
     again; (5) a further call for the first model without re-seeding has the exact RDM again."""
     from rsatoolbox.simulation import sim
     model, theta, arg, kw, info = _build(case)
-    caseB = dict(case, seed=case['seed'] + 1, kind=case.get('kindB', case.get('kind', 'generic')))
+    caseB = dict(case, seed=case['seed'] + 1, kind=case.get('kindB', case.get('kind', 'generic')), name=info['name'])
     if 'signalB' in case:
         caseB['signal'] = case['signalB']
     modelB, thetaB, argB, kwB, infoB = _build(caseB)
@@ -1110,7 +1134,7 @@ def _sweeps(run, thorough, bds):
     if False:  # pending triage: model-rdm-tiny-units
         # a model RDM whose entries are of the order 1e-14 or smaller (an embeddable RDM in small units): make_signal discards
         # every pivot of the second-moment matrix below the ABSOLUTE threshold 1e-15, the simulated data are (partly) zero
-        # (11 of these 12 cases fail on the unchanged tree; units 1e-12 fail for point sets with one short axis)
+        # (9 of these 12 cases fail on the unchanged tree, the 1e-14 ones only partly; units 1e-12 fail for point sets with one short axis)
         for n_cond in (2, 3, 5):
             for sc in (1e-14, 1e-16, 1e-20, 1e-26):
                 k += 1
@@ -1232,8 +1256,8 @@ def _sweeps(run, thorough, bds):
     n_seed = 2 if thorough else 1
     bd = Bounded(run, 'C18/call-sequence', OB_SEQ,
                  'n_cond in 2..5 x n_channel in {n_cond, n_cond+3} x same on/off x noise in {0, 0.5}, %d seed(s); per case four '
-                 'calls: model A, model A again after the same seed, model B of the same shape (other point-set kind, other '
-                 'signal strength), model A without re-seeding; designs (incl. design matrices of other dtypes), label types, model '
+                 'calls: model A, model A again after the same seed, model B of the same class, name and shape (other point '
+                 'set, other signal strength), model A without re-seeding; designs (incl. design matrices of other dtypes), label types, model '
                  'classes, typed model RDMs and noise covariances cycled' % n_seed, function='make_dataset')
     k = 0
     for seed in range(n_seed):
